@@ -21,6 +21,7 @@ RULE_TEXT = (
     "template matches the operation and its hole is the engine count / folded identifier; C04.c key_command "
     "upper-cases every component; C04.d last executed statement == statement recorded as _last_sql."
     " C04.f every by-name lookup in a catalog-wide DuckDB system view carries a database conjunct."
+    " C04.g rowcount after executemany(DML) is built from engine counts, not from num_rows of the status results."
 )
 TRUSTED = ["CPython ast", "DuckDB returns one row (count) for INSERT/UPDATE/DELETE", "statement descriptors mirror the pinned Snowflake parser"]
 
